@@ -172,7 +172,7 @@ Definition f32_values : list spec_float := map (fun t => to_f32 (fv t)) f32_text
 Definition nl : string := String (ascii_of_nat 10) "".
 
 Definition texts : list string :=
-  [""; "0"; "7"; "-7"; "+7"; "007"; "-0"; "+0"; "127"; "128"; "-128"; "-129"; "255"; "256"; "300"; "-300";
+  ["000000000000000000042"; "-00009223372036854775808"; "+0000000000000000000007"; "0000000000000000000000255"; ""; "0"; "7"; "-7"; "+7"; "007"; "-0"; "+0"; "127"; "128"; "-128"; "-129"; "255"; "256"; "300"; "-300";
    "32767"; "32768"; "65535"; "65536"; "2147483647"; "2147483648"; "-2147483649"; "4294967295"; "4294967296";
    "9223372036854775807"; "9223372036854775808"; "-9223372036854775808"; "-9223372036854775809";
    "18446744073709551615"; "18446744073709551616"; "+18446744073709551615"; "99999999999999999999999"; "-99999999999999999999999";
